@@ -22,6 +22,14 @@ package main
 //     shard only (none when no interval holds the date), and a returned SCT verifies under THAT
 //     shard's key over the hand-made entry and carries its key hash.
 //
+//   - shards that SHARE a base URI (genSharedURI): several shards of one temporal log served behind one
+//     front-end - the same URI, spelled identically or differing only in trailing '/' or in the case
+//     of the host name - each shard with its OWN key (or none).  Nothing the client is configured
+//     with per shard (key, interval) may be looked up by the URI: a chain routed to a shard is
+//     answered with a genuine SCT of every OTHER shard behind the same URI (its signature and its
+//     log id), and the returned SCT is held to the key of the shard the chain belongs to.  The
+//     transport cannot tell such shards apart, so "the shard the requests went to" is the URI group.
+//
 // The Coq side: temporal_get_roots / temporal_add_chain_sharded (Client/ClientModel.v).
 
 import (
@@ -51,32 +59,59 @@ import (
 
 type shardCfg struct {
 	host         string
+	uri          string // "" = "http://" + host + "/ct"; several shards may name the same host
 	key          *logKey
 	keyName      string
 	lower, upper *time.Time
 }
 
-// shardRT hands a request to the script of the shard it names (by host); the first request a
-// shard receives in a call is answered after that shard's virtual latency
+func (sh shardCfg) baseURI() string {
+	if sh.uri != "" {
+		return sh.uri
+	}
+	return "http://" + sh.host + "/ct"
+}
+
+// shardRT hands a request to the script of a shard configured with the host it names; the first
+// request a shard's script receives in a call is answered after that shard's virtual latency.
+// Shards behind ONE host cannot be told apart by the transport: the k-th fresh request to the host
+// in a call is answered from the script of the k-th of them (round robin; a request that follows a
+// redirect stays with the script that sent the redirect).
 type shardRT struct {
-	mu     sync.Mutex
-	script map[string]*script
-	delay  map[string]time.Duration
-	slept  map[string]bool
-	index  map[string]int
-	hit    []int
+	mu      sync.Mutex
+	members map[string][]int // host (lower case) -> the shards configured with it, in configuration order
+	script  []*script        // per shard
+	delay   []time.Duration
+	slept   []bool
+	next    map[string]int
+	owner   map[*http.Request]int
+	hit     []int // per request: the FIRST shard configured with the host asked
 }
 
 func (s *shardRT) RoundTrip(req *http.Request) (*http.Response, error) {
-	host := req.URL.Host
+	host := strings.ToLower(req.URL.Host)
 	s.mu.Lock()
-	sc, d := s.script[host], s.delay[host]
-	first := !s.slept[host]
-	s.slept[host] = true
-	s.hit = append(s.hit, s.index[host])
+	mem := s.members[host]
+	if len(mem) == 0 {
+		s.mu.Unlock()
+		panic("c12: request to an unknown shard " + host)
+	}
+	i, follows := 0, false
+	if req.Response != nil && req.Response.Request != nil {
+		i, follows = s.owner[req.Response.Request]
+	}
+	if !follows {
+		i = mem[s.next[host]%len(mem)]
+		s.next[host]++
+	}
+	s.owner[req] = i
+	sc, d := s.script[i], s.delay[i]
+	first := !s.slept[i]
+	s.slept[i] = true
+	s.hit = append(s.hit, mem[0])
 	s.mu.Unlock()
 	if sc == nil {
-		panic("c12: request to an unknown shard " + host)
+		panic("c12: request to a shard without a script " + host)
 	}
 	if first && d > 0 {
 		time.Sleep(d)
@@ -93,14 +128,16 @@ type multi struct {
 	tlc    *client.TemporalLogClient
 	rt     *shardRT
 	trail  []string
+	groups string // "" or the URI groups of the shards, e.g. "0-1-0"
 }
 
 func newMulti(name string, shards []shardCfg) *multi {
-	m := &multi{name: name, shards: shards, rt: &shardRT{index: map[string]int{}}}
+	m := &multi{name: name, shards: shards, rt: &shardRT{members: map[string][]int{}}}
 	cfg := &configpb.TemporalLogConfig{}
 	for i, sh := range shards {
-		m.rt.index[sh.host] = i
-		c := &configpb.LogShardConfig{Uri: "http://" + sh.host + "/ct"}
+		h := strings.ToLower(sh.host)
+		m.rt.members[h] = append(m.rt.members[h], i)
+		c := &configpb.LogShardConfig{Uri: sh.baseURI()}
 		if sh.key != nil {
 			c.PublicKeyDer = sh.key.spki
 		}
@@ -121,22 +158,24 @@ func newMulti(name string, shards []shardCfg) *multi {
 }
 
 func (m *multi) reset() {
-	m.rt.script, m.rt.delay, m.rt.slept, m.rt.hit = map[string]*script{}, map[string]time.Duration{}, map[string]bool{}, nil
+	n := len(m.shards)
+	m.rt.script, m.rt.delay, m.rt.slept, m.rt.hit = make([]*script, n), make([]time.Duration, n), make([]bool, n), nil
+	m.rt.next, m.rt.owner = map[string]int{}, map[*http.Request]int{}
 }
 
 // useForAll: whichever shard is asked in the next call, it answers from [sc]
 func (m *multi) useForAll(sc *script) {
 	m.reset()
-	for _, sh := range m.shards {
-		m.rt.script[sh.host] = sc
+	for i := range m.shards {
+		m.rt.script[i] = sc
 	}
 }
 
 // usePerShard: shard i answers from scs[i], after delays[i]
 func (m *multi) usePerShard(scs []*script, delays []time.Duration) {
 	m.reset()
-	for i, sh := range m.shards {
-		m.rt.script[sh.host], m.rt.delay[sh.host] = scs[i], delays[i]
+	for i := range m.shards {
+		m.rt.script[i], m.rt.delay[i] = scs[i], delays[i]
 	}
 }
 
@@ -144,6 +183,22 @@ func (m *multi) hits() []int {
 	m.rt.mu.Lock()
 	defer m.rt.mu.Unlock()
 	return append([]int{}, m.rt.hit...)
+}
+
+// sameURI: shards a and b are configured with the same host (requests to them look alike)
+func (m *multi) sameURI(a, b int) bool {
+	return a >= 0 && b >= 0 && strings.EqualFold(m.shards[a].host, m.shards[b].host)
+}
+
+// mates: the OTHER shards configured with the host of shard i
+func (m *multi) mates(i int) []int {
+	var out []int
+	for j := range m.shards {
+		if j != i && m.sameURI(i, j) {
+			out = append(out, j)
+		}
+	}
+	return out
 }
 
 // shardFor: the shard whose interval [lower, upper) holds NotAfter of the certificate, as
@@ -205,7 +260,7 @@ func boundText(t *time.Time) string {
 func (m *multi) shardsJSON() interface{} {
 	var out []map[string]string
 	for _, sh := range m.shards {
-		out = append(out, map[string]string{"host": sh.host, "key": sh.keyName, "not_after_start": boundText(sh.lower), "not_after_limit": boundText(sh.upper)})
+		out = append(out, map[string]string{"host": sh.host, "uri": sh.baseURI(), "key": sh.keyName, "not_after_start": boundText(sh.lower), "not_after_limit": boundText(sh.upper)})
 	}
 	return out
 }
@@ -213,6 +268,13 @@ func (m *multi) shardsJSON() interface{} {
 func (m *multi) describe(want int) string {
 	if want < 0 {
 		return fmt.Sprintf("shards=%d expected-shard=none", len(m.shards))
+	}
+	if mates := m.mates(want); len(mates) > 0 {
+		var ks []string
+		for _, j := range mates {
+			ks = append(ks, fmt.Sprintf("%d:%s", j, m.shards[j].keyName))
+		}
+		return fmt.Sprintf("shards=%d uri-groups=%s expected-shard=%d key=%s same-uri-as=[%s]", len(m.shards), m.groups, want, m.shards[want].keyName, strings.Join(ks, ","))
 	}
 	return fmt.Sprintf("shards=%d expected-shard=%d key=%s", len(m.shards), want, m.shards[want].keyName)
 }
@@ -228,7 +290,11 @@ func (m *multi) tags() []string {
 	if n > 4 {
 		n = 4
 	}
-	return []string{"history:session=sharded", fmt.Sprintf("history:earlier-calls=%d", n), fmt.Sprintf("sharded:shards=%d", len(m.shards))}
+	tags := []string{"history:session=sharded", fmt.Sprintf("history:earlier-calls=%d", n), fmt.Sprintf("sharded:shards=%d", len(m.shards))}
+	if m.groups != "" {
+		tags = append(tags, "sharded:uri-groups="+m.groups)
+	}
+	return tags
 }
 
 func (m *multi) after() string {
@@ -587,42 +653,18 @@ func genMultiShard(t *testing.T, r randT, w *lib.Writer, fx *fixtures, rep int) 
 			}
 			steps = append(steps, roots(as))
 		}
-		// submissions routed by NotAfter
-		add := func(dc datedChain, vname string) step {
-			return func() {
-				want := -1
-				if len(dc.certs) > 0 {
-					want, _ = m.shardFor(dc.certs[0])
+		// submissions routed by NotAfter; "foreign" = the key of a neighbouring shard (a genuine log key
+		// of this client, the wrong one here)
+		neighbour := func(want int, signer *logKey) *logKey {
+			for d := 1; d < n; d++ {
+				if k := shards[((want+d)%n+n)%n].key; k != nil && k != signer {
+					return k
 				}
-				signer, foreign := fx.keys[0], fx.foreign[0]
-				if want >= 0 && shards[want].key != nil {
-					signer = shards[want].key
-				}
-				// "foreign" = the key of a neighbouring shard (a genuine log key of this client, the wrong one here)
-				for d := 1; d < n; d++ {
-					if k := shards[((want+d)%n+n)%n].key; k != nil && k != signer {
-						foreign = k
-						break
-					}
-				}
-				if foreign == signer {
-					foreign = fx.foreign[1]
-				}
-				e := entryOf(dc.chainFix, dc.precert)
-				if e == nil {
-					e = standIn(fx, dc.precert)
-				}
-				vs, _ := sctVariants(r, fx, signer, foreign, dc.chainFix, e, other)
-				for _, v := range vs {
-					if v.name == vname {
-						w.Add(caseAddChain(t, addSpec{multi: m, precert: dc.precert, chain: dc.chainFix, name: v.name, idClass: v.idClass, items: v.items}))
-						return
-					}
-				}
-				// not a response class: an HTTP fault
-				w.Add(caseAddChain(t, addSpec{multi: m, precert: dc.precert, chain: dc.chainFix, name: vname, idClass: "n/a",
-					items: []wireItem{resp(500, []byte(htmlPage), "500")}}))
 			}
+			return nil
+		}
+		add := func(dc datedChain, vname string) step {
+			return func() { addSharded(t, r, w, fx, m, dc, vname, neighbour, other) }
 		}
 		vnames := []string{"valid", "foreign-signature-and-foreign-id", "foreign-signature", "id-of-foreign-key", "timestamp-changed", "500", "valid-with-extensions"}
 		for di, dc := range dated {
@@ -646,4 +688,203 @@ func genMultiShard(t *testing.T, r randT, w *lib.Writer, fx *fixtures, rep int) 
 			s()
 		}
 	}
+}
+
+// addSharded: one AddChain / AddPreChain call on the temporal client [m], answered with the response
+// class [vname] made for the shard that the harness's own reading of the chain selects: signed by
+// that shard's key; its "foreign" key is foreignOf(selected shard, signer) (nil: a key of no shard)
+func addSharded(t *testing.T, r randT, w *lib.Writer, fx *fixtures, m *multi, dc datedChain, vname string,
+	foreignOf func(want int, signer *logKey) *logKey, other *entry) {
+	want := -1
+	if len(dc.certs) > 0 {
+		want, _ = m.shardFor(dc.certs[0])
+	}
+	signer := fx.keys[0]
+	if want >= 0 && m.shards[want].key != nil {
+		signer = m.shards[want].key
+	}
+	foreign := foreignOf(want, signer)
+	if foreign == nil {
+		foreign = fx.foreign[0]
+	}
+	if foreign == signer {
+		foreign = fx.foreign[1]
+	}
+	e := entryOf(dc.chainFix, dc.precert)
+	if e == nil {
+		e = standIn(fx, dc.precert)
+	}
+	vs, _ := sctVariants(r, fx, signer, foreign, dc.chainFix, e, other)
+	for _, v := range vs {
+		if v.name == vname {
+			w.Add(caseAddChain(t, addSpec{multi: m, precert: dc.precert, chain: dc.chainFix, name: v.name, idClass: v.idClass, items: v.items}))
+			return
+		}
+	}
+	// not a response class: an HTTP fault
+	w.Add(caseAddChain(t, addSpec{multi: m, precert: dc.precert, chain: dc.chainFix, name: vname, idClass: "n/a",
+		items: []wireItem{resp(500, []byte(htmlPage), "500")}}))
+}
+
+// uriGroupings: which shards are configured with the same base URI (shard i is in group g[i]); every
+// grouping has a shard that comes AFTER another shard with the same URI
+var uriGroupings = map[int][][]int{
+	2: {{0, 0}},
+	3: {{0, 0, 0}, {0, 1, 0}, {0, 0, 1}, {0, 1, 1}},
+	4: {{0, 0, 0, 0}, {0, 1, 0, 1}, {0, 0, 1, 1}, {0, 1, 1, 0}, {0, 1, 2, 1}, {0, 0, 0, 1}},
+}
+
+// genSharedURI: temporal clients whose shards SHARE base URIs (one front-end serving several shards
+// of a log) while every shard has its own key (or none) and its own interval.  Per shard: chains
+// that belong to it (first second, second second, last second of its interval), answered with a
+// genuine SCT of its own log, with a genuine SCT of EVERY other shard configured with the same URI
+// (that shard's signature and log id: what the one server would hand out had it filed the chain
+// under the wrong shard), with that shard's signature under the right id, the right signature under
+// that shard's id, and further classes; get-roots calls (all well, a fault on one position) in
+// between.  The oracle is caseAddChain's / caseShardRoots's: the returned SCT verifies under the key
+// configured for the shard whose interval holds NotAfter, verified here with crypto/ecdsa / crypto/rsa.
+func genSharedURI(t *testing.T, r randT, w *lib.Writer, fx *fixtures, rep int) {
+	keyPool := []struct {
+		k    *logKey
+		name string
+	}{{fx.keys[0], "p256-a"}, {fx.keys[1], "rsa2048-a"}, {fx.foreign[0], "p256-b"}, {fx.foreign[1], "rsa2048-b"}, {nil, "none"}}
+	dated := fx.datedChains()
+	other := entryOf(fx.chain("x509-other"), false)
+	spell := func(host string, k int) string {
+		if k == 0 {
+			return "http://" + host + []string{"/ct", "/ct/"}[r.Intn(2)]
+		}
+		if r.Intn(4) == 0 {
+			host = strings.ToUpper(host)
+		}
+		return "http://" + host + []string{"/ct", "/ct/", "/ct//"}[r.Intn(3)]
+	}
+	for n := 2; n <= 4; n++ {
+		gs := uriGroupings[n]
+		picks := [][]int{gs[(r.Intn(len(gs))+rep)%len(gs)]}
+		if lib.Tier() != "quick" && len(gs) > 1 && rep%2 == 0 {
+			picks = append(picks, gs[(r.Intn(len(gs)-1)+1+indexOfGrouping(gs, picks[0]))%len(gs)])
+		}
+		for _, g := range picks {
+			first := r.Intn(len(shardBounds) - n)
+			kp := r.Perm(len(keyPool))
+			if keyPool[kp[0]].k == nil && r.Intn(2) == 0 {
+				kp[0], kp[1] = kp[1], kp[0] // "no key" on the first shard of a URI in half of its draws only
+			}
+			var shards []shardCfg
+			var gtxt []string
+			nth := map[int]int{}
+			for i := 0; i < n; i++ {
+				lo, hi := shardBounds[first+i], shardBounds[first+i+1]
+				host := fmt.Sprintf("frontend%d.c12.example", g[i])
+				sh := shardCfg{host: host, uri: spell(host, nth[g[i]]), key: keyPool[kp[i]].k, keyName: keyPool[kp[i]].name, lower: &lo, upper: &hi}
+				nth[g[i]]++
+				if i == 0 && r.Intn(2) == 0 {
+					sh.lower = nil
+				}
+				if i == n-1 && r.Intn(2) == 0 {
+					sh.upper = nil
+				}
+				shards = append(shards, sh)
+				gtxt = append(gtxt, fmt.Sprint(g[i]))
+			}
+			m := newMulti(fmt.Sprintf("temporal client with %d shards behind shared URIs", n), shards)
+			m.groups = strings.Join(gtxt, "-")
+
+			var steps []func()
+			// the chains of every shard
+			for i := 0; i < n; i++ {
+				var mine []datedChain
+				for _, dc := range dated {
+					if s, ok := m.shardFor(dc.certs[0]); ok && s == i {
+						mine = append(mine, dc)
+					}
+				}
+				if len(mine) == 0 {
+					panic("c12: no dated chain for a shard")
+				}
+				if len(mine) > 2 {
+					// one certificate chain and one precertificate chain (when there is one); thorough: one more
+					p := r.Perm(len(mine))
+					sel := []datedChain{mine[p[0]]}
+					for _, j := range p[1:] {
+						if mine[j].precert != sel[0].precert {
+							sel = append(sel, mine[j])
+							break
+						}
+					}
+					if lib.Tier() != "quick" {
+						for _, j := range p[1:] {
+							if mine[j].name != sel[len(sel)-1].name && mine[j].name != sel[0].name {
+								sel = append(sel, mine[j])
+								break
+							}
+						}
+					}
+					mine = sel
+				}
+				mates := m.mates(i)
+				for ci, dc := range mine {
+					dc := dc
+					mate := func(j int) func(int, *logKey) *logKey {
+						return func(int, *logKey) *logKey { return shards[j].key }
+					}
+					anyMate := func(int, *logKey) *logKey { return nil }
+					if len(mates) > 0 {
+						anyMate = mate(mates[r.Intn(len(mates))])
+					}
+					steps = append(steps, func() { addSharded(t, r, w, fx, m, dc, "valid", anyMate, other) })
+					// a genuine SCT of every other shard behind the same URI
+					for _, j := range mates {
+						f := mate(j)
+						steps = append(steps, func() { addSharded(t, r, w, fx, m, dc, "foreign-signature-and-foreign-id", f, other) })
+					}
+					vn := []string{"foreign-signature", "id-of-foreign-key", "timestamp-changed", "500", "valid-with-extensions", "signed-for-another-chain", "id-absent"}[(ci+i+rep+r.Intn(7))%7]
+					steps = append(steps, func() { addSharded(t, r, w, fx, m, dc, vn, anyMate, other) })
+					if len(mates) == 0 {
+						steps = append(steps, func() { addSharded(t, r, w, fx, m, dc, "foreign-signature-and-foreign-id", anyMate, other) })
+					}
+				}
+			}
+			// get-roots: all well; one fault on every position
+			uniq := func(i int) []byte { return dated[(3*i+rep+1)%len(dated)].certs[0] }
+			goodOf := func(i int) []byte { return goodRootsBody(fx.root.DER, uniq(i)) }
+			wellAll := func() []shardAnswer {
+				var as []shardAnswer
+				for i := 0; i < n; i++ {
+					as = append(as, shardAnswer{"good", []wireItem{resp(200, goodOf(i), "good-body")}})
+				}
+				return as
+			}
+			delays := func() []time.Duration {
+				var ds []time.Duration
+				for _, p := range r.Perm(n) {
+					ds = append(ds, time.Duration(1+p)*7*time.Millisecond)
+				}
+				return ds
+			}
+			roots := func(as []shardAnswer) func() { return func() { w.Add(caseShardRoots(t, m, as, delays())) } }
+			steps = append(steps, roots(wellAll()))
+			nf := len(rootFaults(goodOf(0)))
+			for pos := 0; pos < n; pos++ {
+				as := wellAll()
+				as[pos] = rootFaults(goodOf(pos))[r.Intn(nf)]
+				steps = append(steps, roots(as))
+			}
+			// ONE history per client, in a random order
+			r.Shuffle(len(steps), func(i, j int) { steps[i], steps[j] = steps[j], steps[i] })
+			for _, s := range steps {
+				s()
+			}
+		}
+	}
+}
+
+func indexOfGrouping(gs [][]int, g []int) int {
+	for i := range gs {
+		if &gs[i][0] == &g[0] {
+			return i
+		}
+	}
+	return 0
 }
